@@ -12,7 +12,7 @@ use crate::prng::{Fnv, Rng};
 use crate::schema::{self, GenMode, MapSchema, Site, Ty, PARAM_CMDS};
 use crate::trace::{DeliverExpect, Step};
 
-pub const REQUIRED_PROBES: [&str; 11] = [
+pub const REQUIRED_PROBES: [&str; 14] = [
     "overlong_lossy_member_checked",
     "decode_ok",
     "decode_err",
@@ -24,6 +24,9 @@ pub const REQUIRED_PROBES: [&str; 11] = [
     "structure_straddle",
     "recovery_checked",
     "fault_free_exchange",
+    "redelivered",
+    "soak_rejected",
+    "soak_accepted",
 ];
 
 const SWEEP_RUNS: u64 = 3 + 256 + 6 * 256;
@@ -308,6 +311,9 @@ pub fn gen(seed: u64, run: u64, tier: &str) -> Vec<Step> {
     if tier == "thorough" && run < SWEEP_RUNS {
         return sweep_steps(run);
     }
+    if run % SOAK_EVERY == 7 {
+        return soak_steps(seed, run);
+    }
     let mut rng = Rng::new(seed, run, 4);
     let cfg = cfg_for(&mut rng, run);
     let nested_names = crate::real::nested_type_names();
@@ -440,6 +446,20 @@ pub fn gen(seed: u64, run: u64, tier: &str) -> Vec<Step> {
         steps.push(deliver(bytes, tags.join(","), desc));
         steps.extend(nested);
     }
+    // messages of this session delivered again after everything else: the answer is the one given the first time
+    let earlier: Vec<(Vec<u8>, String)> = steps
+        .iter()
+        .filter_map(|s| match s {
+            Step::Deliver { delivered, desc, .. } => Some((delivered.clone(), desc.clone())),
+            _ => None,
+        })
+        .collect();
+    if !earlier.is_empty() {
+        for _ in 0..3.min(earlier.len()) {
+            let (b, d) = rng.pick(&earlier).clone();
+            steps.push(deliver(b, "redelivered".into(), format!("redelivery of [{}]", d)));
+        }
+    }
     // once faults stop, the very next request is served, and served identically
     let cmd = *rng.pick(&PARAM_CMDS);
     let sc = schema::schema_for(cmd).unwrap();
@@ -448,6 +468,56 @@ pub fn gen(seed: u64, run: u64, tier: &str) -> Vec<Step> {
     cbor::enc_into(&mut b, &root);
     steps.push(deliver(b, "recovery".into(), format!("fault-free request after the session, cmd 0x{:02x}", cmd)));
     steps
+}
+
+/// One run in SOAK_EVERY is a soak: a device that is never restarted is sent the same rejected message, and
+/// then the same accepted message, more often than an 8- or 16-bit counter can count.
+const SOAK_EVERY: u64 = 2048;
+
+fn soak_steps(seed: u64, run: u64) -> Vec<Step> {
+    let mut rng = Rng::new(seed, run, 41);
+    let n = *rng.pick(&[300u64, 65_540, 65_540, 70_001]);
+    let cmd = *rng.pick(&PARAM_CMDS);
+    let sc = schema::schema_for(cmd).unwrap();
+    let root = schema::gen_map(&sc, &mut rng, GenMode::Min);
+    let mut ok = vec![cmd];
+    cbor::enc_into(&mut ok, &root);
+    // rejected: the same message cut short, or a command byte nobody assigned, or a wrong-typed parameter map
+    let bad: Vec<u8> = match rng.below(3) {
+        0 => ok[..1 + rng.usize_below(ok.len().max(2) - 1)].to_vec(),
+        1 => vec![0x5f, 0xa0],
+        _ => vec![cmd, 0x80],
+    };
+    vec![
+        Step::Deliver { delivered: bad, expect: DeliverExpect::None, class: format!("soak:{}", n), site: "rejected".into(), desc: format!("soak: the same rejected message {} times", n) },
+        Step::Deliver { delivered: ok, expect: DeliverExpect::None, class: format!("soak:{}", n), site: "accepted".into(), desc: format!("soak: the same well-formed cmd 0x{:02x} message {} times", cmd, n) },
+    ]
+}
+
+/// Deliver `bytes` n times; every result must equal the first. Err((delivery index, what, panicked)).
+pub fn soak(bytes: &[u8], n: u64) -> Result<String, (u64, String, bool)> {
+    use ctap_types::ctap2::Request;
+    let k = std::cell::Cell::new(0u64);
+    let r = crate::guard::guard(|| {
+        let first = Request::deserialize(bytes);
+        k.set(1);
+        for i in 1..n {
+            k.set(i + 1);
+            let again = Request::deserialize(bytes);
+            if again != first {
+                return Err(format!("answered {:?} the first time and {:?} now", first.as_ref().map(|_| "Ok").map_err(|e| *e as u8), again.as_ref().map(|_| "Ok").map_err(|e| *e as u8)));
+            }
+        }
+        Ok(match &first {
+            Ok(_) => "Ok".to_string(),
+            Err(e) => format!("Err(0x{:02x})", *e as u8),
+        })
+    });
+    match r {
+        Ok(Ok(s)) => Ok(s),
+        Ok(Err(what)) => Err((k.get(), what, false)),
+        Err(p) => Err((k.get(), p, true)),
+    }
 }
 
 fn sweep_steps(run: u64) -> Vec<Step> {
@@ -510,6 +580,14 @@ pub fn account(step: &Step, outcome: &str, stats: &mut Stats) {
                 stats.evaluations += n;
                 stats.real_calls += 2 * n;
                 stats.probe_n(&format!("exhaustive_short_inputs_len{}", rest), n);
+                return;
+            }
+            if class.starts_with("soak:") {
+                let n: u64 = outcome.strip_prefix("soak-ok:").and_then(|x| x.parse().ok()).unwrap_or(0);
+                stats.evaluations += 1;
+                stats.real_calls += n;
+                stats.probe(if desc.contains("rejected") { "soak_rejected" } else { "soak_accepted" });
+                stats.probe_n("soak_deliveries", n);
                 return;
             }
             stats.evaluations += 1;
